@@ -343,6 +343,21 @@ impl EmitGen<'_, '_, '_> {
             self.g.label("declaration-after-use");
         }
         let export = if self.g.c.chance(1, 5) { "export " } else { "" };
+        if sigs.len() >= 2 && self.g.c.chance(1, 3) {
+            // declaration merging: the `extends` clause may sit on the later declaration
+            self.g.label("emits-interface-merged");
+            let (e1, e2) = if self.g.c.bool() { (ext.as_str(), "") } else { ("", ext.as_str()) };
+            self.g.decls.push(crate::gen::types::Decl {
+                text: format!("{export}interface {name}{e1} {{ {} }}", sigs[..1].join("; ")),
+                after,
+            });
+            self.g.decls.push(crate::gen::types::Decl {
+                text: format!("{export}interface {name}{e2} {{ {} }}", sigs[1..].join("; ")),
+                after,
+            });
+            self.g.label("emits-interface");
+            return name;
+        }
         self.g.decls.push(crate::gen::types::Decl {
             text: format!("{export}interface {name}{ext} {{ {} }}", sigs.join("; ")),
             after,
